@@ -33,4 +33,9 @@ def run(ctx):
     st = elin.run(ctx, F, crates=("oxidd_ffi_c",), skip_guard_table=True)
     ctx.floor("E-LIN", "FFI bodies analysed", st["bodies"], 300)
     eunits.run(ctx, F, crates=("oxidd_ffi_c",))
+    ctx.explain("E-FFI.null: where a C-facing function tests a raw pointer with is_null(), the operations that dereference or "
+                "take ownership through pointers (from_raw_parts, Box::from_raw, CStr::from_ptr, read / write) lie on the "
+                "non-null edge of the test.")
+    nn = effi.check_null_guards(ctx, F)
+    ctx.floor("E-FFI.null", "C-facing functions with a null test", nn, 12)
     ctx.not_decided = "call-sequence equivalence with the Rust API; final node counts"
